@@ -189,7 +189,8 @@ fn run_b<'a>(p: &BPb<'a>, s: &'a [u8]) -> Result<Option<usize>, String> {
     .unwrap_or_else(|e| Err(format!("panic: {}", cvh::e1::panic_msg(e))))
 }
 
-pub const ALPHABET: &str = "019afgZ_ \t\r\n\x0B\x0Cé٣-\u{85}\u{2028}";
+// ('٣' U+0663, 'Ł' U+0141, 'Ċ' U+010A: multi-byte characters whose low byte is an ASCII letter / LF)
+pub const ALPHABET: &str = "019afgZ_ \t\r\n\x0B\x0Cé٣-\u{85}\u{2028}ŁĊ";
 
 pub struct TextUnit {
     pub name: String,
@@ -344,6 +345,117 @@ pub fn run_unit(u: &TextUnit, cx: &ShardCtx) -> UnitResult {
         cfgs.bytes.len(),
         REGEXES.len()
     );
+    r
+}
+
+// ---- totality on arbitrary Unicode / arbitrary bytes (C20) ---------------------------------------------------
+
+pub const T_CHARS: [char; 6] = ['a', '0', 'é', '\u{301}', '\u{1D11E}', ' '];
+pub const T_BYTES: [u8; 7] = [b'a', b'0', 0x00, 0x7F, 0x80, 0xC3, 0xFF];
+
+/// every text parser configuration on every string over a nasty Unicode alphabet (&str) and on every
+/// byte string over a nasty byte alphabet (&[u8], including invalid UTF-8): a ParseResult comes back
+/// (no panic, no mid-character access), a result without output carries an error, check() agrees
+pub fn run_totality(unit: &str, len: usize, cx: &ShardCtx) -> UnitResult {
+    let mut r = UnitResult { name: unit.to_string(), exhaustive: true, ..Default::default() };
+    let cfgs = configs();
+    let res = regexes();
+    let nstr = count_strings(T_CHARS.len(), len);
+    let nbytes = count_strings(T_BYTES.len(), len);
+    let mut distinct = HashSet::new();
+    let bytes_alpha: Vec<char> = T_BYTES.iter().map(|b| *b as char).collect();
+    let mut idx = cx.shard;
+    while idx < nstr + nbytes {
+        if cx.skip.contains(&idx) {
+            idx += cx.nshards;
+            continue;
+        }
+        if idx % 64 == cx.shard % 64 {
+            (cx.progress)(idx);
+        }
+        if idx < nstr {
+            let s: String = nth_string(&T_CHARS, idx).into_iter().collect();
+            let leaked: &'static str = Box::leak(s.clone().into_boxed_str());
+            let mut run = |name: &str, p: &SP<'static>| {
+                r.cases += 1;
+                r.validated += 1;
+                r.states += 1;
+                r.transitions += s.len() as u64 + 1;
+                let got = catch_unwind(AssertUnwindSafe(|| {
+                    let res = p.parse(leaked);
+                    let (ho, ne) = (res.has_output(), res.errors().len());
+                    let c = p.check(leaked);
+                    let ce = c.errors().len();
+                    (ho, ne, c.has_output(), ce)
+                }));
+                let bad = match got {
+                    Err(e) => Some(format!("panic: {}", cvh::e1::panic_msg(e))),
+                    Ok((ho, ne, co, ce)) => {
+                        distinct.insert((name.len() as u64 * 31 + ho as u64, s.len()));
+                        if !ho && ne == 0 { Some("no output and no error".into()) } else if ho != co || (!co && ce == 0) { Some("check() disagrees with parse()".into()) } else { None }
+                    }
+                };
+                if let Some(why) = bad {
+                    r.mismatch_count += 1;
+                    if r.mismatches.len() < 20 {
+                        r.mismatches.push(json!({"engine": "text-totality", "unit": unit, "parser": name, "kind": "&str", "input": s, "categories": ["totality"], "detail": format!("{name} on {:?}: {why}", s), "explained_by": []}));
+                    }
+                }
+            };
+            for (name, p, _) in &cfgs.strs {
+                run(name, p);
+            }
+            for re in &res {
+                run(&format!("regex({})", re.name), &re.at0);
+                run(&format!("any.then(regex({}))", re.name), &re.at1);
+            }
+            // SAFETY: leaked above, nothing borrowed from it survives
+            unsafe { drop(Box::from_raw(leaked as *const str as *mut str)) };
+        } else {
+            let b: Vec<u8> = nth_string(&bytes_alpha, idx - nstr).into_iter().map(|c| c as u8).collect();
+            let leaked: &'static [u8] = Box::leak(b.clone().into_boxed_slice());
+            let mut run = |name: &str, p: &BPb<'static>| {
+                r.cases += 1;
+                r.validated += 1;
+                r.states += 1;
+                r.transitions += b.len() as u64 + 1;
+                let got = catch_unwind(AssertUnwindSafe(|| {
+                    let res = p.parse(leaked);
+                    let (ho, ne) = (res.has_output(), res.errors().len());
+                    let c = p.check(leaked);
+                    let ce = c.errors().len();
+                    (ho, ne, c.has_output(), ce)
+                }));
+                let bad = match got {
+                    Err(e) => Some(format!("panic: {}", cvh::e1::panic_msg(e))),
+                    Ok((ho, ne, co, ce)) => {
+                        distinct.insert((name.len() as u64 * 37 + ho as u64, b.len()));
+                        if !ho && ne == 0 { Some("no output and no error".into()) } else if ho != co || (!co && ce == 0) { Some("check() disagrees with parse()".into()) } else { None }
+                    }
+                };
+                if let Some(why) = bad {
+                    r.mismatch_count += 1;
+                    if r.mismatches.len() < 20 {
+                        r.mismatches.push(json!({"engine": "text-totality", "unit": unit, "parser": name, "kind": "&[u8]", "input": format!("{:?}", b), "categories": ["totality"], "detail": format!("{name} on bytes {:?}: {why}", b), "explained_by": []}));
+                    }
+                }
+            };
+            for (name, p, _) in &cfgs.bytes {
+                run(name, p);
+            }
+            for re in &res {
+                run(&format!("regex({})", re.name), &re.at0b);
+            }
+            // SAFETY: as above
+            unsafe { drop(Box::from_raw(leaked as *const [u8] as *mut [u8])) };
+        }
+        idx += cx.nshards;
+    }
+    if r.samples.is_empty() {
+        r.samples.push(format!("e.g. unicode::ident, int(36), whitespace, regex(\\w+) on {:?}; ascii::ident, digits(16), regex([^a]) on bytes [0xC3, 0xFF, 0x00]", "a\u{301}é\u{1D11E}"));
+    }
+    r.distinct_outcomes = distinct.len() as u64;
+    r.desc = format!("text parsers are total: all {} strings of length <= {len} over {:?} on &str and all {} byte strings over {:02X?} on &[u8] (invalid UTF-8 included) x every text parser configuration and regex pattern: parse and check return, failures carry an error, check agrees with parse", nstr, T_CHARS, nbytes, T_BYTES);
     r
 }
 
